@@ -102,7 +102,7 @@ class SyncedEnforcer:
     def get_adapter(self):
         """gets the current adapter."""
         with self._rl:
-            self._e.get_adapter()
+            return self._e.get_adapter()
 
     def set_adapter(self, adapter):
         """sets the current adapter."""
@@ -557,39 +557,39 @@ class SyncedEnforcer:
     def add_named_matching_func(self, ptype, fn):
         """add_named_matching_func add MatchingFunc by ptype RoleManager"""
         with self._wl:
-            self._e.add_named_matching_func(ptype, fn)
+            return self._e.add_named_matching_func(ptype, fn)
 
     def add_named_link_condition_func(self, ptype, user, role, fn):
         """Add condition function fn for Link userName->roleName,
         when fn returns true, Link is valid, otherwise invalid"""
         with self._wl:
-            self._e.add_named_link_condition_func(ptype, user, role, fn)
+            return self._e.add_named_link_condition_func(ptype, user, role, fn)
 
     def add_named_domain_matching_func(self, ptype, fn):
         """add_named_domain_matching_func add MatchingFunc by ptype to RoleManager"""
         with self._wl:
-            self._e.add_named_domain_matching_func(ptype, fn)
+            return self._e.add_named_domain_matching_func(ptype, fn)
 
     def add_named_domain_link_condition_func(self, ptype, user, role, domain, fn):
         """Add condition function fn for Link userName-> {roleName, domain},
         when fn returns true, Link is valid, otherwise invalid"""
         with self._wl:
-            self._e.add_named_domain_link_condition_func(ptype, user, role, domain, fn)
+            return self._e.add_named_domain_link_condition_func(ptype, user, role, domain, fn)
 
     def set_named_domain_link_condition_func_params(self, ptype, user, role, domain, *params):
         """Sets the parameters of the condition function fn for Link userName->{roleName, domain}"""
         with self._wl:
-            self._e.set_named_domain_link_condition_func_params(ptype, user, role, domain, *params)
+            return self._e.set_named_domain_link_condition_func_params(ptype, user, role, domain, *params)
 
     def set_named_link_condition_func_params(self, ptype, user, role, *params):
         """Sets the parameters of the condition function fn for Link userName->roleName"""
         with self._wl:
-            self._e.set_named_link_condition_func_params(ptype, user, role, *params)
+            return self._e.set_named_link_condition_func_params(ptype, user, role, *params)
 
     def is_filtered(self):
         """returns true if the loaded policy has been filtered."""
         with self._rl:
-            self._e.is_filtered()
+            return self._e.is_filtered()
 
     def add_policies(self, rules):
         """adds authorization rules to the current policy.
